@@ -1415,15 +1415,24 @@ func ruleTablePairing(c *Ctx, rule string) {
 		if side.fn == a.ClientFinish || side.fn == a.ServerFinish {
 			continue // the delete is inlined in the finishing function; judged by the path rule above
 		}
-		okDel := false
+		okDel, okAlways := false, true
 		allInstrs(side.fn, func(in ssa.Instruction) {
 			if call, ok := in.(*ssa.Call); ok && calleeName(call) == "builtin.delete" {
 				if fr, _, ok := loadedField(call.Call.Args[0]); ok && fr == side.table && origin(call.Call.Args[1]) == ssa.Value(side.fn.Params[1]) {
 					okDel = true
+					// reached whenever there is a table: the only test allowed in front of it is table != nil
+					for _, f := range factsAt(call) {
+						x, op, y, isCmp := cmpFact(f)
+						if isCmp && op == token.NEQ && isNilConst(y) && isFieldLoad(x, side.table) {
+							continue
+						}
+						okAlways = false
+					}
 				}
 			}
 		})
 		c.check(okDel, rule, w.Short(side.fn)+": deletes the entry for its id", w.Pos(side.fn.Pos()), "delete(table, id)", "the removal function does not delete the table entry keyed by its parameter")
+		c.check(!okDel || okAlways, rule, w.Short(side.fn)+": deletes whenever the table exists", w.Pos(side.fn.Pos()), "unconditional, or guarded by table != nil only", "the delete is guarded by a condition other than 'the table exists': finished RPCs stay in the table (leak), and late frames for them reach a dead stream")
 	}
 	// channel close drops the table
 	okNil := false
@@ -1891,6 +1900,62 @@ func ruleInvokeReportsOutcome(c *Ctx, rule string) {
 			}
 		}
 		c.check(ok, rule, key, w.At(ret), "may return the stream's recorded outcome", "the returned error is "+desc(t[len(t)-1])+", never the stream's recorded outcome: a unary call to a refused stream (unknown method, shutting down) with a request larger than the flow-control window fails with a bare 'context canceled' instead of the server's status (Unimplemented / Unavailable)")
+		// every alternative of the returned error: the recorded outcome exactly when it is a failure (non-nil and not the
+		// clean-end marker), else the very error that made the send fail — never nil
+		if len(t) == 0 || t[len(t)-1] == nil {
+			continue
+		}
+		rv := stripConv(t[len(t)-1])
+		var failing ssa.Value // the send error known to be non-nil at this return
+		for _, f := range factsAt(ret) {
+			if x, op, y, isCmp := cmpFact(f); isCmp && op == token.NEQ && isNilConst(y) && isErrorType(x.Type()) {
+				failing = origin(x)
+			}
+		}
+		var viaCall *ssa.Call
+		if call, isCall := rv.(*ssa.Call); isCall && helperCallee(call) != nil {
+			viaCall = call
+		}
+		okCases, nOutcome, nSend := true, 0, 0
+		why := ""
+		for _, vc := range valueCases(rv, 4) { // one level: the alternatives written in Invoke or in the helper it returns
+			if c.readsMarker(vc.Val, a.CSDone) {
+				nOutcome++
+				nonNil, notEOF := false, false
+				for _, f := range vc.Facts {
+					x, op, y, isCmp := cmpFact(f)
+					if !isCmp || op != token.NEQ || origin(x) != origin(vc.Val) {
+						continue
+					}
+					if isNilConst(y) {
+						nonNil = true
+					}
+					if desc(y) == "*global:EOF" {
+						notEOF = true
+					}
+				}
+				if !nonNil || !notEOF {
+					okCases, why = false, "the recorded outcome is returned on a path where it may be nil or the clean-end marker (success or a bare EOF instead of the send failure)"
+				}
+				continue
+			}
+			v := origin(vc.Val)
+			if p, isP := v.(*ssa.Parameter); isP && viaCall != nil {
+				if h := helperCallee(viaCall); h != nil && p.Parent() == h {
+					for k, q := range h.Params {
+						if q == p && k < len(viaCall.Call.Args) {
+							v = origin(viaCall.Call.Args[k])
+						}
+					}
+				}
+			}
+			if failing != nil && v == failing {
+				nSend++
+				continue
+			}
+			okCases, why = false, "one alternative of the returned error is "+desc(vc.Val)+", which is neither the stream's recorded outcome nor the error that made the send fail (nil reports success for a request that was never delivered)"
+		}
+		c.check(okCases && nOutcome >= 1 && nSend >= 1, rule, key+": outcome when it is a failure, else the send error", w.At(ret), fmt.Sprintf("%d outcome alternative(s) under outcome != nil && outcome != EOF, %d send-error alternative(s)", nOutcome, nSend), why)
 	}
 	c.floor(rule, len(rets), 1, "send-failure returns of Invoke (SendMsg, CloseSend)")
 }
